@@ -290,6 +290,16 @@ def fs_shape_corpus(rng, tier):
     add("cache-is-link", {"target.py": real, "impl.py": IMPL, "real.json": "{}", "c.json": LNK("real.json")}, opts=["-C", "c.json"], pre_runs=1)
     add("cache-parent-is-file", {"target.py": real, "impl.py": IMPL, "blocker": "x"}, opts=["-C", "blocker/c.json"])
     add("cache-is-the-target", {"target.py": real, "impl.py": IMPL}, opts=["-C", "target.py"])
+    # the witnesses of K23 / K24 / K25 (fixed upstream in c5833ef / 353eacf / bcdf6de) must now end exit 1 with the
+    # fatal: line of the fix; anything else — also a plain exit 0 — is reported
+    for r in rows:
+        n = r["row"]
+        if n.startswith("fs:K23:") and ":control:" not in n:
+            r["expect_fatal"] = "unable to resolve relative imports in"
+        elif n.startswith("fs:dir-link-loop:") and n.split(":")[2] in ("import", "from", "top", "star", "in-followed"):
+            r["expect_fatal"] = "unable to find module 'dl"
+        elif n in ("fs:cache-is-directory", "fs:cache-is-dangling-link", "fs:cache-parent-is-file"):
+            r["expect_fatal"] = "unable to write the cache file"
     if tier == "quick":
         return rows
     more = []
@@ -747,4 +757,106 @@ def tie(rng, tier, res, model, tmp: Path, materialise):
             res.nontrivial.add(common.digest(["run", case["row"], level]))
         for dmsg in diffs:
             res.disagreements.append({"case": small, "diff": "whole-run tie: " + dmsg})
-    res.extra["round3_tie"] = {"read_texts": len(texts), "show_stats_rows": len(shows), "projects": len(kept)}
+    n_rel, n_tail = tie_fixed_guards(rng, tier, res, model, tmp, materialise)
+    res.extra["round3_tie"] = {"read_texts": len(texts), "show_stats_rows": len(shows), "projects": len(kept),
+                               "relative_import_guard_files": n_rel, "cache_write_states": n_tail}
+
+
+def _dotted_candidates(path: str):
+    """every dotted name `derive_module_name_from_path` could ask `module_exists` about (a superset)."""
+    d = path.replace("/", ".").replace("\\", ".")
+    outs = set()
+    for v in {d, d.removesuffix(".py"), d.removesuffix(".__init__.py"), d.removesuffix(".__init__.py").removesuffix(".py")}:
+        parts = v.strip(".").split(".")
+        for k in range(len(parts)):
+            outs.add(".".join(parts[k:]))
+    return sorted(outs)
+
+
+def tie_fixed_guards(rng, tier, res, model, tmp: Path, materialise):
+    """Tie B for RattrModel/RelBase.lean (the `base is None` guard of the relative-import visitors, K23) and for
+    Stats.mainTail (the cache write at the end of main, K25), in-process against the current code."""
+    import impl
+    from rattr.config.state import enter_file
+    from rattr.models.context import compile_root_context
+    from rattr.module_locator.util import derive_module_name_from_path, module_exists
+    import rattr.__main__ as RM
+    from rattr.analyser import file as RF
+
+    rel_reqs, rel_real = [], []
+    for case in fs_shape_corpus(rng, "quick"):
+        n = case["row"]
+        if not (n.startswith(("fs:K23:", "fs:link-in-package:relative", "fs:target-spelling", "fs:dir-link:target-inside", "fs:target-is-link:to-outside"))):
+            continue
+        d = materialise(tmp, case)
+        try:
+            target = case["target"].replace("{ABS}", str(d))
+            with impl.in_dir(str(d / case.get("cwd", "."))):
+                impl.reset_config(target=Path(target), _warning_level="none")
+                if not os.path.isfile(target):
+                    continue
+                with impl.Tap():
+                    base = impl.outcome_of(derive_module_name_from_path, target)
+                    trues = [c.split(".") for c in _dotted_candidates(target) if impl.outcome_of(module_exists, c) == ("ok", True)]
+                    with open(target) as fh:
+                        tree = ast.parse(fh.read())
+                    has_rel = any(isinstance(x, ast.ImportFrom) and x.level > 0 for x in tree.body)
+                    with enter_file(Path(target)):
+                        ctx = impl.outcome_of(compile_root_context, tree)
+                rel_reqs.append({"comps": target.replace("/", ".").split("."), "exists": trues, "fixed": True})
+                rel_real.append({"row": n, "target": case["target"], "base": base[1] if base[0] == "ok" else f"<{base[0]}>", "has_rel": has_rel,
+                                 "ctx": ctx[0] if ctx[0] != "crash" else f"crash:{ctx[1]}"})
+        finally:
+            shutil.rmtree(d, ignore_errors=True)
+    # the cache write: one tiny project, every state of the -C path
+    tail_rows, tail_real = [], []
+    d = materialise(tmp, {"files": {"target.py": "import lib\ndef f(a):\n    return lib.g(a)\n", "lib.py": "def g(x):\n    return x.y\n",
+                                   "isdir/keep": "", "blocker": "x", "dangling.json": {"symlink": "nowhere/c.json"}, "link.json": {"symlink": "real.json"},
+                                   "real.json": "{}"}})
+    try:
+        with impl.in_dir(str(d)):
+            impl.reset_config(target=Path("target.py"), _warning_level="none")
+            with impl.Tap():
+                out = impl.outcome_of(RF.parse_and_analyse_file)
+                if out[0] == "ok":
+                    file_ir, import_irs, stats = out[1]
+                    results = RM.generate_results_from_ir(target_ir=file_ir, import_irs=import_irs)
+                    cacheable = RM.make_cacheable_results(results=results, target_ir=file_ir, import_irs=import_irs)
+                    for name, path in (("new-file", "fresh.json"), ("new-directories", "deep/er/c.json"), ("existing-file", "real.json"), ("link", "link.json"),
+                                       ("directory", "isdir"), ("dangling-link", "dangling.json"), ("parent-is-file", "blocker/c.json")):
+                        r = impl.outcome_of(RM.write_cache_file, Path(path), cacheable)
+                        # independent verdict on "can be written": try it with plain Python on a sibling path of the same shape
+                        tail_real.append({"state": name, "real": "ok" if r[0] == "ok" else ("fatal" if r[0] == "fatal" else f"crash:{r[1]}")})
+                        tail_rows.append([stats.file_lines, stats.import_lines, stats.number_of_imports, stats.number_of_unique_imports, False, "silent",
+                                          name in ("new-file", "new-directories", "existing-file", "link"), True])
+    finally:
+        shutil.rmtree(d, ignore_errors=True)
+    mo = model.batch([("c07_run", {"relbase": rel_reqs, "tail": tail_rows})])[0]
+    if isinstance(mo, dict) and "__error__" in mo:
+        res.disagreements.append({"case": {"stage": "fixed-guards-tie"}, "diff": "c07_run: " + str(mo["__error__"])[:300]})
+        return 0, 0
+    for real, m in zip(rel_real, mo["relbase"] or []):
+        res.evaluations += 1
+        want = "fatal" if real["base"] is None else "base:" + str(real["base"])
+        res.count("guard-tie:relative-import:" + ("no-base" if real["base"] is None else "base"))
+        small = {"stage": "guard-tie:relative-import", **real}
+        if m != want:
+            res.disagreements.append({"case": small, "diff": f"derive_module_name_from_path: real {real['base']!r}, RelBase.relBase {m}"})
+        if real["has_rel"]:
+            # a file with a relative import and no base: the root-context builder ends fatal (never an exception)
+            if real["ctx"].startswith("crash"):
+                if real["base"] is None:
+                    res.disagreements.append({"case": small, "diff": f"no base: the model says fatal, compile_root_context raised {real['ctx']}"})
+            elif real["base"] is None and real["ctx"] != "fatal":
+                # (with a base the builder may still end fatal for another reason: a module that does not exist)
+                res.disagreements.append({"case": small, "diff": f"no base, yet compile_root_context ended {real['ctx']} (the model says fatal)"})
+            if real["base"] is None:
+                res.nontrivial.add(common.digest(["relbase", real["row"]]))
+    for real, m in zip(tail_real, mo["tail"] or []):
+        res.evaluations += 1
+        res.count("guard-tie:cache-write:" + real["real"])
+        if real["real"] != m:
+            res.disagreements.append({"case": {"stage": "guard-tie:cache-write", **real}, "diff": f"write_cache_file: real {real['real']}, Stats.mainTail {m}"})
+        if real["real"] != "ok":
+            res.nontrivial.add(common.digest(["tail", real["state"]]))
+    return len(rel_real), len(tail_real)
